@@ -246,6 +246,74 @@ func ruleHlogIsolation(r *Run, p *Prog) {
 	if !found {
 		r.Ob("ISOL", FnName(nh)+"/per-request-copy", p.Pos(nh.Pos()), false, true, "NewHandler does not attach a logger to the request context")
 	}
+	// Logger.WithContext attaches a private copy of the receiver in a NEW context value and never
+	// writes through a *Logger it found in the context (requests deriving from a common base
+	// context would otherwise share, and overwrite, one logger)
+	if wc != nil {
+		wv := p.View(wc, "", nil)
+		writesAttached := false
+		var pos token.Pos = wc.Pos()
+		fromCtxValue := func(v ssa.Value) bool {
+			for depth := 0; depth < 6; depth++ {
+				switch x := v.(type) {
+				case *ssa.Extract:
+					v = x.Tuple
+				case *ssa.TypeAssert:
+					v = x.X
+				case *ssa.FieldAddr:
+					v = x.X
+				case *ssa.Phi:
+					for _, e := range x.Edges {
+						if c, ok := stripToCall(e); ok && c.Call.IsInvoke() && c.Call.Method.Name() == "Value" {
+							return true
+						}
+					}
+					return false
+				case *ssa.Call:
+					return x.Call.IsInvoke() && x.Call.Method.Name() == "Value"
+				default:
+					return false
+				}
+			}
+			return false
+		}
+		attachesCopy := false
+		eachInstr(wv, func(b *ssa.BasicBlock, i int, in ssa.Instruction) {
+			if st, ok := in.(*ssa.Store); ok && fromCtxValue(st.Addr) {
+				writesAttached = true
+				pos = st.Pos()
+			}
+			if c, ok := in.(*ssa.Call); ok && isCallTo(&c.Call, "context.WithValue") && len(c.Call.Args) == 3 {
+				v := c.Call.Args[2]
+				if mi, ok := v.(*ssa.MakeInterface); ok {
+					v = mi.X
+				}
+				if al, ok := v.(*ssa.Alloc); ok {
+					if init := allocInit(al); init != nil && isParam(init, wv, 0) {
+						attachesCopy = true
+					}
+				}
+			}
+		})
+		r.Ob("ISOL", FnName(wc)+"/attached-logger-untouched", p.Pos(pos), !writesAttached, true, tern(!writesAttached, "WithContext never writes through a logger found in the context", "WithContext overwrites the *Logger already attached to the context in place: every context derived from the same base (all requests under a common base context) now shares and clobbers one logger"))
+		r.Ob("ISOL", FnName(wc)+"/attaches-private-copy", p.Pos(wc.Pos()), attachesCopy, true, tern(attachesCopy, "WithContext attaches the address of its own copy of the receiver in a new context value", "WithContext does not attach a private copy of the receiver through context.WithValue"))
+	}
+}
+
+func stripToCall(v ssa.Value) (*ssa.Call, bool) {
+	for depth := 0; depth < 4; depth++ {
+		switch x := v.(type) {
+		case *ssa.Extract:
+			v = x.Tuple
+		case *ssa.TypeAssert:
+			v = x.X
+		case *ssa.Call:
+			return x, true
+		default:
+			return nil, false
+		}
+	}
+	return nil, false
 }
 
 // freeVarOwner: the enclosing function whose local the free variable refers to.
